@@ -1020,6 +1020,57 @@ func (b *c06Book) structural(r *Run, line string) (string, bool, bool) {
 	return st, post.reloadable(), changed
 }
 
+// duprow runs `duprow i row row2` (DuplicateRowTo), compares dump-for-dump with the model and checks that a
+// rejected call changes nothing and that no other sheet changes.
+func (b *c06Book) duprow(r *Run, line string) (string, bool, bool) {
+	w := strings.Fields(line)
+	if len(w) != 4 {
+		b.emit(r, line, "bad-op")
+		return "bad-op", true, false
+	}
+	i, e1 := strconv.Atoi(w[1])
+	row, e2 := strconv.Atoi(w[2])
+	row2, e3 := strconv.Atoi(w[3])
+	if e1 != nil || e2 != nil || e3 != nil {
+		b.emit(r, line, "bad-op")
+		return "bad-op", true, false
+	}
+	sh := c06Sheet(i)
+	if i < 0 || i >= b.k {
+		c06Safe(func() error { return b.f.DuplicateRowTo(sh, row, row2) })
+		b.emit(r, line, "ERR")
+		return "ERR", true, false
+	}
+	preAll := b.allDumps()
+	st := c06Safe(func() error { return b.f.DuplicateRowTo(sh, row, row2) })
+	postAll := b.allDumps()
+	ln := b.emit(r, line, st+" "+postAll[i])
+	r.Stat("op:duprow:" + st)
+	changed := preAll[i] != postAll[i]
+	r.Case(line+"|"+preAll[i], st == "ok" && changed)
+	if st != "ok" && changed {
+		r.Fail("duprow:noop:rejected-after-mutation", fmt.Sprintf("%s rejected (%s) but the sheet changed\n#   before: %s\n#   after:  %s", line, st,
+			c06Trunc(preAll[i], 600), c06Trunc(postAll[i], 600)), ln, b.replayText())
+	}
+	for j := 0; j < b.k; j++ {
+		if j != i && preAll[j] != postAll[j] {
+			r.Fail("othersheet:duprow", fmt.Sprintf("%s changed sheet %s", line, c06Sheet(j)), 0, b.replayText())
+		}
+	}
+	others := "-"
+	var os []string
+	for j := 0; j < b.k; j++ {
+		if j != i {
+			os = append(os, postAll[j])
+		}
+	}
+	if len(os) > 0 {
+		others = strings.Join(os, " || ")
+	}
+	b.emit(r, fmt.Sprintf("others %d", i), others)
+	return st, c06Parse(postAll[i]).reloadable(), changed
+}
+
 func c06Trunc(s string, n int) string {
 	if len(s) > n {
 		return s[:n] + "…"
